@@ -180,7 +180,8 @@ impl<R: DynamicChannelRegion> RegionHandler for DynamicChannelPlan<R> {
     }
 
     fn get_datarate(&self, dr: u8) -> Option<&Datarate> {
-        R::datarates()[dr as usize].as_ref()
+        // `dr` may come straight from a received frame (0..=15); the table has 15 entries
+        R::datarates().get(dr as usize).and_then(|d| d.as_ref())
     }
 
     fn select_tx_channel<RNG: RngCore>(
